@@ -52,6 +52,44 @@ func BlockSeccompSyscall() error {
 	return nil
 }
 
+// BlockSeccompSyscallAs is BlockSeccompSyscall for a starter that sets no_new_privs only if it has to (setNNP: the caller lacks
+// CAP_SYS_ADMIN): the thread's bit then says nothing about the enclosing filter (Loader!BlockSeccomp).
+func BlockSeccompSyscallAs(setNNP bool) error {
+	if setNNP {
+		return BlockSeccompSyscall()
+	}
+	prog := []syscall.SockFilter{
+		{Code: 0x20, K: 0},
+		{Code: 0x15, Jt: 0, Jf: 1, K: 317},
+		{Code: 0x06, K: 0x00050000 | 38},
+		{Code: 0x06, K: 0x7fff0000},
+	}
+	fprog := syscall.SockFprog{Len: uint16(len(prog)), Filter: &prog[0]}
+	if _, _, e := syscall.RawSyscall6(syscall.SYS_PRCTL, 22 /* PR_SET_SECCOMP */, 2 /* SECCOMP_MODE_FILTER */, uintptr(unsafe.Pointer(&fprog)), 0, 0, 0); e != 0 {
+		return e
+	}
+	return nil
+}
+
+// OldKernelAllThreads puts every thread under an enclosing filter that answers seccomp(2) with EINVAL when its flags argument has
+// a bit the kernels before 5.7 do not know (SECCOMP_FILTER_FLAG_TSYNC_ESRCH, 1 << 4, and above): to the process the kernel is an
+// older one. A caller that only uses the flags the package names never notices. Root only (no no_new_privs is set).
+func OldKernelAllThreads() error {
+	prog := []syscall.SockFilter{
+		{Code: 0x20, K: 0},                        // ld nr
+		{Code: 0x15, Jt: 0, Jf: 3, K: 317},        // jeq seccomp ? next : allow
+		{Code: 0x20, K: 24},                       // ld args[1] (low word; little endian): flags
+		{Code: 0x45, Jt: 0, Jf: 1, K: 0xfffffff0}, // jset ~0xf ? einval : allow
+		{Code: 0x06, K: 0x00050000 | 22},          // ret ERRNO(EINVAL)
+		{Code: 0x06, K: 0x7fff0000},               // ret ALLOW
+	}
+	fprog := syscall.SockFprog{Len: uint16(len(prog)), Filter: &prog[0]}
+	if _, _, e := syscall.RawSyscall(317 /* seccomp */, 1 /* SET_MODE_FILTER */, 1 /* TSYNC */, uintptr(unsafe.Pointer(&fprog))); e != 0 {
+		return e
+	}
+	return nil
+}
+
 // BlockSeccompAllThreads does what BlockSeccompSyscall does for every thread of the process (thread-sync), so that a goroutine
 // meets the enclosing filter whichever thread it runs on: to the process, seccomp(2) does not exist.
 func BlockSeccompAllThreads() error {
